@@ -33,6 +33,9 @@ def run(ctx):
                 "gen": [("adm_drop", d2, dict(ids=3, family=("admission",), horizon=10, maxep=1, maxins=4, pick="insertion", ticks=(10,), delays=(0,), ttls=(10,)), 2),
                         ("adm_d1", d1, dict(ids=2, family=("admission", "lease"), horizon=10, maxep=1, maxins=2, pick="insertion", ticks=(10,), delays=(0,), ttls=(10,)), 2)],
                 "drv": [("adm", "admission", 150, 70, {})]}
+        guard = q.spec_cfg(maxDepth=2, drop="drop_oldest", delivMaxAge=100000, pressItems=1)
+        plan["gen"].append(("guards", guard, dict(ids=3, family=("lease", "admission"), horizon=0, maxep=1, maxins=3, pick="insertion",
+                                                  ttls=(10,), ticks=(10,), delays=(0,)), 4))
     else:
         plan = {"mc": [(n, c, PROPS, dict(ids=3, family=FAM, horizon=20, maxep=1, maxins=4, ticks=(10,), delays=(0,), ttls=(10,), timeout=3000))
                        for n, c in (("adm_d1", d1), ("adm_d2", d2), ("adm_r2", r2), ("adm_dd", dd))],
